@@ -86,3 +86,10 @@ __CPROVER_ensures(SIGN(*ba) == -SIGN(RET))
 /* 0 when neither chain crosses a keystone boundary; negative iff only the first is empty */
 __CPROVER_ensures((nA == 0 && nB == 0) ==> RET == 0)
 __CPROVER_ensures((nA == 0 && nB > 0) ==> RET < 0);
+
+/* "0 when neither chain crosses a keystone boundary": a chain's publication view is empty  <=>  no keystone k with fork < k <= tip,
+ * i.e. the greatest multiple of KI at or below the tip is not above the fork point (the same division-free form as unit keystone) */
+int w_view_empty_c(int fork_h, int tip_h)
+__CPROVER_requires(fork_h >= 0 && tip_h >= fork_h && tip_h <= 2147483647 - KI)
+__CPROVER_assigns()
+__CPROVER_ensures((RET != 0) == !(tip_h - tip_h % KI > fork_h));
